@@ -113,8 +113,9 @@ def gen_case(rng, d, n):
     partial = bool(rng.random() < 0.2)
     for i in nan_rows:
         if partial and d > 1 and rng.random() < 0.5:
-            b[i, 0] = np.nan
-            b[i, d] = np.nan
+            k_ = int(rng.integers(0, d))            # undefined in one dimension only, any dimension
+            b[i, k_] = np.nan
+            b[i, d + k_] = np.nan
         else:
             b[i, :] = np.nan
     return {"d": d, "bounds": b.tolist(), "configs": configs,
